@@ -579,6 +579,11 @@ func (w *world) runStream(kind string, ss grpc.ServerStream) error {
 			tr.emit(base("HCtxDone"))
 		case "sleep":
 			time.Sleep(time.Duration(op.Ms) * time.Millisecond)
+		case "stall":
+			// stuck in something of its own: neither data nor the context moves it; only the end of the scenario does
+			if q != nil {
+				<-q.done
+			}
 		case "drain":
 			for {
 				if _, err := recv(); err != nil {
